@@ -57,11 +57,14 @@ Fixpoint is_prefix (p s : str) : bool :=
 (* Python str.endswith(suffix) *)
 Definition str_endswith (suffix s : str) : bool := is_prefix (rev suffix) (rev s).
 
-(* ---- int() on ASCII digit strings (the part of Python's int() that is modelled) *)
+(* ---- int() on ASCII digit strings, possibly surrounded by white space (the part of Python's int()
+   that is modelled; signs, underscores and non-ASCII digits are not) *)
 Definition is_digit (c : N) : bool := (48 <=? c) && (c <=? 57).
 Fixpoint digits_val (acc : N) (s : str) : N :=
   match s with [] => acc | c :: r => digits_val (acc * 10 + (c - 48)) r end.
-Definition parse_nat (s : str) : option N :=
+(* int() first strips white space (str.isspace characters) *)
+Definition parse_nat (s0 : str) : option N :=
+  let s := strip s0 in
   match s with
   | [] => None
   | _ => if forallb is_digit s then Some (digits_val 0 s) else None
